@@ -133,6 +133,13 @@ def _safe_str(e):
             return '<unprintable %s>' % type(e).__name__
 
 
+def safe_repr(e):
+    try:
+        return repr(e)
+    except Exception:
+        return '<unreprable %s>' % type(e).__name__
+
+
 def call_wsgi(app, environ, token=None, trace=None, catch=Exception):
     """Drive one request through a WSGI callable and record the interaction."""
     ex = Exchange(environ)
